@@ -101,6 +101,10 @@ func (c CoefficientGetter) GetVectorCoefficient(pol polynomial.PolynomialVector,
 	mapping := pol.Mapping
 
 	for i, p := range pol.Value {
+		// a coefficient skipped by the factorization of an odd or even polynomial is nil (i.e. zero)
+		if p.Coeffs[k] == nil {
+			continue
+		}
 		for _, j := range mapping[i] {
 			values[j] = p.Coeffs[k].Uint64()
 		}
